@@ -40,7 +40,7 @@ def run(tier, seed):
     rep.rule('FORWARD', 'each configuration field is copied into the field of the same role and handed to the generator setter of '
              'that role; the engine is seeded from the configured seed; a newly built generator is initialised before it is returned')
     gp = g4.fn(PGA + '::GeneratePrimaries')
-    F = cppflow.Flow(gp)
+    F = cppflow.Flow(gp, helpers={k: v for k, v in cppflow.private_helpers(g4, gp).items() if not v.get('method')})
     g = F.g
     # ------------------------------------------------------------------ LOOP
     shoot = [n for n in F.nodes(kind='call') if n.stmt[1] == 'decay0_generator::shoot']
@@ -82,15 +82,28 @@ def run(tier, seed):
     if pvar is None:
         raise AnalysisBroken('loop variable of the particle loop not found')
     table = {}
-    for n in F.nodes(kind='call'):
-        if n.stmt[1] == 'G4ParticleGun::SetParticleDefinition' and n.id in body:
-            bs = [b for b in F.nodes(kind='branch') if b.succ[0] == n.id]
-            if len(bs) != 1 or not _is(bs[0].stmt[1], 'call') or bs[0].stmt[1][2:] != (pvar,):
-                table['?%d' % n.line] = None
-                continue
-            pred = bs[0].stmt[1][1].split('::')[-1]
+    isdef = lambda e: _is(e, 'call') and len(e) == 2 and e[1].endswith('Definition')
+    for n in g.nodes:
+        # SetParticleDefinition(G4X::XDefinition()) or `d = G4X::XDefinition()` (a helper's return value, expanded) under is_X(particle)
+        arg = None
+        if n.kind == 'call' and n.stmt[1] == 'G4ParticleGun::SetParticleDefinition' and n.id in body and isdef(n.stmt[2][1]):
             arg = n.stmt[2][1]
-            table[pred] = arg[1] if _is(arg, 'call') and len(arg) == 2 else ir.fmt(arg)
+        elif n.kind == 'assign' and n.id in body and isdef(n.stmt[2]):
+            arg = n.stmt[2]
+        if arg is None:
+            continue
+        bs = [b for b in F.nodes(kind='branch') if b.succ[0] == n.id]
+        if len(bs) != 1 or not _is(bs[0].stmt[1], 'call') or bs[0].stmt[1][2:] != (pvar,):
+            table['?%d' % n.line] = None
+            continue
+        table[bs[0].stmt[1][1].split('::')[-1]] = arg[1]
+    # when the definition goes through a variable, that variable is what SetParticleDefinition receives
+    spd = [n for n in F.nodes(kind='call') if n.stmt[1] == 'G4ParticleGun::SetParticleDefinition' and n.id in body]
+    via = {n.stmt[2][1] for n in spd if not isdef(n.stmt[2][1])}
+    for v in via:
+        defs = [n for n in g.nodes if n.kind == 'assign' and n.stmt[1] == v]
+        if v[0] != 'var' or not defs or not all(isdef(d.stmt[2]) for d in defs):
+            table['?var'] = None
     want = {k: v[0] for k, v in SPECIES.items()}
     rep.add('SPECIES', 'table', where(gp), 'is_electron/positron/gamma/alpha select G4Electron/G4Positron/G4Gamma/G4Alpha (found %s)' % table,
             table == want)
